@@ -302,7 +302,7 @@ func runFamily(spec *Spec, f *Family, variant, bin, tier string, seed int64) *fa
 	if nw > len(shards) {
 		nw = len(shards)
 	}
-	hang := 120
+	hang := 300
 	if f.HangSeconds > 0 {
 		hang = f.HangSeconds
 	}
